@@ -10,7 +10,11 @@ TemplatesV ==
     TSell("", q1, <<12005, 3>>, Z), TSell("", q1, <<9995, 3>>, Z), TSell("", q2, <<7, 0>>, <<5, 3>>),
     Traded(TSell("", q1, <<15, 0>>, Z), 4), TSell("", q3, <<11, 0>>, Z),
     \* a gain and an equal loss: over two years the security's total is exactly zero
-    TSell("", q1, <<12, 0>>, Z), TSell("", q1, <<8, 0>>, Z) }
+    TSell("", q1, <<12, 0>>, Z), TSell("", q1, <<8, 0>>, Z),
+    \* two shares acquired at no cost; gains of 0.00999999996 and 0.00500000003: their sum is 1e-11 below one and
+    \* a half cent, while the first alone is within 1e-10 of a whole cent (an intermediate figure "tidied" to the
+    \* cent would carry the year over the half cent)
+    TBuy("", q2, Z, Z), TSell("", q1, <<999999996, 11>>, Z), TSell("", q1, <<500000003, 11>>, Z) }
 GapsV == {0, 20, 330}
 OpeningsV == {<<>>}
 SplitRatiosV == {<<2, 1>>}
